@@ -6,6 +6,59 @@ STD_ASSUME = ["the Lean model is tied to /repo by the T1 extractor and the T2 co
 HOOK_COMMITS = ["9665c83 verif hooks: yield points in the sse delivery goroutine and handler exit path"]
 
 PROPS = {
+    "C06": {
+        "claimed": False, "na_reason": "proofs in progress",
+        "model_modules": ["TemplVerif.Model.Pos"],
+        "proof_modules": ["TemplVerif.Proofs.Pos"],
+        "thorough_shards": 12,
+        "level_text": "Split claim, stated as such. PROVED in Lean 4: the position arithmetic every recorded range rests on - PositionAt (newline "
+                      "table + sort.Search) returns line = number of LF before the index and column = distance from the line start for every "
+                      "source and index (C06_positionAt), clamping is ordered and in bounds (C06_clamp), walking over text that is present keeps "
+                      "index/line/column consistent (C06_walk_consistent), and the progress argument the parser's loops rely on (C06_progress: "
+                      "'every iteration stops or strictly advances' => termination within len+1 iterations). MONITORED on explored inputs: the "
+                      "real parser neither panics nor exceeds 0.5 s, error positions lie inside the input, and for every file that parse + generate "
+                      "+ gofmt accept EVERY parser.Expression in the tree (found by reflection, so new node kinds are covered) and every "
+                      "(Name, NameRange) pair is faithful: in bounds, ordered, line/col = PositionAt(index), source text at the range start begins "
+                      "with the recorded text, name ranges cover exactly the name (Lean predicate rangeFaithful on the real tree).",
+        "level_note": "Totality of ~3000 lines of parser combinators on go/parser is NOT proved (no faithful Lean model of reasonable size): "
+                      "panics/hangs are searched for by structure-aware mutation (truncations, token insertion/deletion/duplication, byte flips, "
+                      "CRLF, multi-byte, random bytes) of repo templates, hand-written seeds and grammar-generated templates. a-h/parse's "
+                      "PositionAt is modelled (tied by an exhaustive run over {a, LF, e-acute}^<=5 at every index).",
+        "rule": "PositionAt: exhaustive over {a, LF, e-acute} to 5 symbols x every index. Files: 73 repo templates + 5 seeds + 300 (8000) generated, each "
+                "whole, then 4000 (200000) mutations (truncation, token insertion, span deletion/duplication, byte flip, multi-insertion) and "
+                "random byte tails. Non-trivial = accepted file with more than two expressions, or any mutated input.",
+        "exhaustive": False,
+        "proved": ["C06_positionAt", "C06_clamp", "C06_progress", "C06_walk_consistent"],
+        "monitored": ["no panic / no slow parse / error position in bounds on every explored input", "rangeFaithful for every expression and name range of every accepted file",
+                      "model positionAt = a-h/parse PositionAt"],
+        "partial": ["parser totality is monitored, not proved", "the 'matched => advanced' hypothesis of C06_progress is not instrumented per node parser (timeouts stand in for it)"],
+        "trusted_base": ["a-h/parse Input.PositionAt (modelled)", "go/parser, go/scanner"],
+        "assumptions": STD_ASSUME,
+    },
+    "C07": {
+        "claimed": False, "na_reason": "proofs in progress",
+        "model_modules": ["TemplVerif.Model.Pos", "TemplVerif.Model.SourceMap"],
+        "proof_modules": ["TemplVerif.Proofs.Pos"],
+        "level_text": "Lean 4 theorems about the model of parser.SourceMap and generator.RangeWriter position tracking: after Add, every rune-start "
+                      "and line-end position of a (valid UTF-8) expression maps to the target position reached by advancing over the same bytes, "
+                      "consecutive to consecutive, and back (C07_add); mapped positions hold the same byte (C07_same_byte); a later expression "
+                      "with different source positions does not overwrite earlier mappings (C07_no_clobber). The model is compared with the real "
+                      "SourceMap.Add (random add sequences, full table dumps) and RangeWriter.Write; and on real templates (repo, seeds with "
+                      "multi-byte text / multi-line expressions / CRLF / expressions before the package clause, grammar-generated) EVERY "
+                      "parser.Expression of the tree (reflection) is checked against the real generated file and real source map with the Lean "
+                      "predicate exprMapped (covered; same byte; consecutive; round trip; target line/col = PositionAt of target index).",
+        "level_note": "'Every expression is covered' (C07_cover) and the symbol ranges are established per explored template by the correspondence "
+                      "run, and in general only by the generator model of C02 (not a theorem here). Byte positions are rune-start positions. "
+                      "An expression value ending in LF shares its end position with the next expression (belongs to the latter).",
+        "rule": "400 (20000) random Add sequences over 11 values incl. multi-line, multi-byte, CRLF; RangeWriter write sequences; 73 repo templates + "
+                "5 seeds + 250 (6000) generated templates, every expression of each. Non-trivial = more than two live expressions / multi-line or multi-byte value.",
+        "exhaustive": False,
+        "proved": ["C07_add", "C07_same_byte", "C07_no_clobber"],
+        "monitored": ["model = real SourceMap.Add tables", "model advance = real RangeWriter ranges", "exprMapped for every expression of every explored template"],
+        "partial": ["cover / symbol ranges rest on the explored templates until the generator model lands"],
+        "trusted_base": ["Go map assignment = later entry wins", "utf8 range iteration modelled by Utf8.decodeRune"],
+        "assumptions": STD_ASSUME,
+    },
     "C08": {"claimed": False, "na_reason": "differential check built (format, then parse + generate + gofmt, compare); printer/reparse model and theorems not yet built",
             "model_modules": [], "proof_modules": [], "rule": "repo templates + grammar-generated templates", "search_rounds": 0},
     "C09": {"claimed": False, "na_reason": "differential check built (format twice, compare); printer/reparse model and theorems not yet built",
